@@ -44,6 +44,16 @@ type checkRunner struct {
 	checkedRcptsPerCheck map[module.CheckState]map[string]struct{}
 	checkedRcptsLock     sync.Mutex
 
+	// States of checks that rejected a CheckConnection or CheckSender call,
+	// with the rejection reason. Protected by checkedRcptsLock.
+	rejectedStates map[module.CheckState]error
+
+	// States that saw the connection, the sender and the recipients handled
+	// before the state was created, respectively.
+	connReplayed   map[module.CheckState]struct{}
+	senderReplayed map[module.CheckState]struct{}
+	rcptsReplayed  map[module.CheckState]struct{}
+
 	// States that saw the message body already. A check referenced from
 	// multiple blocks (e.g. globally and in a destination block) should
 	// get the body only once.
@@ -66,6 +76,10 @@ func newCheckRunner(msgMeta *module.MsgMetadata, log log.Logger, r dns.Resolver)
 		msgMeta:              msgMeta,
 		checkedRcptsPerCheck: map[module.CheckState]map[string]struct{}{},
 		bodyChecked:          map[module.CheckState]struct{}{},
+		rejectedStates:       map[module.CheckState]error{},
+		connReplayed:         map[module.CheckState]struct{}{},
+		senderReplayed:       map[module.CheckState]struct{}{},
+		rcptsReplayed:        map[module.CheckState]struct{}{},
 		log:                  log,
 		resolver:             r,
 		dmarcVerify:          dmarc.NewVerifier(r),
@@ -75,34 +89,32 @@ func newCheckRunner(msgMeta *module.MsgMetadata, log log.Logger, r dns.Resolver)
 
 func (cr *checkRunner) checkStates(ctx context.Context, checks []module.Check) ([]module.CheckState, error) {
 	states := make([]module.CheckState, 0, len(checks))
-	newStates := make([]module.CheckState, 0, len(checks))
-	newStatesMap := make(map[module.Check]module.CheckState, len(checks))
-	closeStates := func() {
-		for _, state := range states {
-			state.Close()
-		}
-	}
 
 	for _, check := range checks {
 		state, ok := cr.states[check]
-		if ok {
-			states = append(states, state)
-			continue
+		if !ok {
+			cr.log.Debugf("initializing state for %v (%p)", objectName(check), check)
+			var err error
+			state, err = check.CheckStateForMsg(ctx, cr.msgMeta)
+			if err != nil {
+				return nil, err
+			}
+			// The state is registered right away and is closed together
+			// with all others by close(). In particular, it is kept if one
+			// of the replayed calls below rejects: the state is not created
+			// (and does not see the connection, the sender and the earlier
+			// recipients) again when the check is needed for the next
+			// recipient.
+			cr.states[check] = state
 		}
 
-		cr.log.Debugf("initializing state for %v (%p)", objectName(check), check)
-		state, err := check.CheckStateForMsg(ctx, cr.msgMeta)
-		if err != nil {
-			closeStates()
+		// The check rejected the connection or the sender when these stages
+		// were replayed for it. It is not asked again, all commands that
+		// involve it fail the same way.
+		if err := cr.rejectedStates[state]; err != nil {
 			return nil, err
 		}
 		states = append(states, state)
-		newStates = append(newStates, state)
-		newStatesMap[check] = state
-	}
-
-	if len(newStates) == 0 {
-		return states, nil
 	}
 
 	// Here we replay previous CheckConnection/CheckSender/CheckRcpt calls
@@ -110,58 +122,97 @@ func (cr *checkRunner) checkStates(ctx context.Context, checks []module.Check) (
 	//
 	// Done outside of check loop above to make sure we can run these for multiple
 	// checks in parallel.
+	//
+	// A replay that was cut short because an other check rejected is
+	// continued the next time the state is requested.
 	if cr.mailFromReceived {
-		err := cr.runAndMergeResults(newStates, func(s module.CheckState) module.CheckResult {
-			res := s.CheckConnection(ctx)
-			return res
+		err := cr.replayStage(states, cr.connReplayed, func(s module.CheckState) module.CheckResult {
+			return s.CheckConnection(ctx)
 		})
 		if err != nil {
-			closeStates()
 			return nil, err
 		}
-		err = cr.runAndMergeResults(newStates, func(s module.CheckState) module.CheckResult {
-			res := s.CheckSender(ctx, cr.mailFrom)
-			return res
+		err = cr.replayStage(states, cr.senderReplayed, func(s module.CheckState) module.CheckResult {
+			return s.CheckSender(ctx, cr.mailFrom)
 		})
 		if err != nil {
-			closeStates()
 			return nil, err
 		}
 	}
 
-	if len(cr.checkedRcpts) != 0 {
-		for _, rcpt := range cr.checkedRcpts {
-			err := cr.runAndMergeResults(states, func(s module.CheckState) module.CheckResult {
-				// Avoid calling CheckRcpt for the same recipient for the same check
-				// multiple times, even if requested.
-				cr.checkedRcptsLock.Lock()
-				if _, ok := cr.checkedRcptsPerCheck[s][rcpt]; ok {
-					cr.checkedRcptsLock.Unlock()
-					return module.CheckResult{}
-				}
-				if cr.checkedRcptsPerCheck[s] == nil {
-					cr.checkedRcptsPerCheck[s] = make(map[string]struct{})
-				}
-				cr.checkedRcptsPerCheck[s][rcpt] = struct{}{}
+	pending := make([]module.CheckState, 0, len(states))
+	for _, state := range states {
+		if _, ok := cr.rcptsReplayed[state]; !ok {
+			pending = append(pending, state)
+		}
+	}
+	if len(pending) == 0 {
+		return states, nil
+	}
+
+	for _, rcpt := range cr.checkedRcpts {
+		err := cr.runAndMergeResults(states, func(s module.CheckState) module.CheckResult {
+			// Avoid calling CheckRcpt for the same recipient for the same check
+			// multiple times, even if requested.
+			cr.checkedRcptsLock.Lock()
+			if _, ok := cr.checkedRcptsPerCheck[s][rcpt]; ok {
 				cr.checkedRcptsLock.Unlock()
-
-				res := s.CheckRcpt(ctx, rcpt)
-				return res
-			})
-			if err != nil {
-				closeStates()
-				return nil, err
+				return module.CheckResult{}
 			}
+			if cr.checkedRcptsPerCheck[s] == nil {
+				cr.checkedRcptsPerCheck[s] = make(map[string]struct{})
+			}
+			cr.checkedRcptsPerCheck[s][rcpt] = struct{}{}
+			cr.checkedRcptsLock.Unlock()
+
+			res := s.CheckRcpt(ctx, rcpt)
+			return res
+		})
+		if err != nil {
+			return nil, err
 		}
 	}
-
-	// This is done after all actions that can fail so we will not have to remove
-	// state objects from main map.
-	for check, state := range newStatesMap {
-		cr.states[check] = state
+	for _, state := range pending {
+		cr.rcptsReplayed[state] = struct{}{}
 	}
 
 	return states, nil
+}
+
+// replayStage runs the CheckConnection or CheckSender call for states that
+// did not see that stage yet (as recorded in done).
+func (cr *checkRunner) replayStage(states []module.CheckState, done map[module.CheckState]struct{}, runner func(module.CheckState) module.CheckResult) error {
+	pending := make([]module.CheckState, 0, len(states))
+	for _, state := range states {
+		if _, ok := done[state]; ok {
+			continue
+		}
+		done[state] = struct{}{}
+		pending = append(pending, state)
+	}
+	if len(pending) == 0 {
+		return nil
+	}
+
+	quarantined := false
+	err := cr.runAndMergeResults(pending, func(s module.CheckState) module.CheckResult {
+		res := runner(s)
+		cr.checkedRcptsLock.Lock()
+		if res.Quarantine {
+			quarantined = true
+		} else if res.Reject {
+			cr.rejectedStates[s] = res.Reason
+		}
+		cr.checkedRcptsLock.Unlock()
+		return res
+	})
+	if quarantined {
+		// runAndMergeResults does not record it if an other check rejected
+		// the command, but the check will not be asked about the
+		// connection and the sender again.
+		cr.mergedRes.Quarantine = true
+	}
+	return err
 }
 
 func (cr *checkRunner) runAndMergeResults(states []module.CheckState, runner func(module.CheckState) module.CheckResult) error {
